@@ -36,6 +36,11 @@ class Outcome(object):
         self.machinery_errors = []
         self._known = [k for k in load_known() if k.get('property') == prop and k.get('status', 'open') == 'open']
         self._replay_n = 0
+        d = os.path.join(VERIF, 'replays', prop)
+        if os.path.isdir(d):
+            for f in os.listdir(d):
+                if f.startswith(tier + '-'):
+                    os.unlink(os.path.join(d, f))
 
     # --- model checking stats
     def add_tlc(self, res, label=None):
